@@ -333,10 +333,10 @@ theorem eof_cdataSectionEnd (o : Opts) (ho : o.exactErrors = false) (tree : Tree
   all_goals eof_leaf
 
 set_option maxHeartbeats 1600000 in
-/-- html5ever's `eof_step` does not clear `current_comment` in this state (it is empty there: every
-exit of a comment state takes it) -/
+/-- html5ever's `eof_step` does not clear `current_comment` in this state: it is empty there (every
+exit of a comment state takes it), which is the last clause of `RegRel` -/
 theorem eof_markupDeclarationOpen (o : Opts) (ho : o.exactErrors = false) (tree : Tree) (m : Mach) (t : Tok)
-    (h : RegCore m t) (hs : m.state = .markupDeclarationOpen) (hmc : m.comment = []) : EofOk o tree m t := by
+    (h : RegCore m t) (hs : m.state = .markupDeclarationOpen) : EofOk o tree m t := by
   intro k mf he
   eof_state h hs he
   all_goals eof_leaf
@@ -448,59 +448,80 @@ theorem eof_rawEndTagName (o : Opts) (ho : o.exactErrors = false) (tree : Tree) 
     · exact absurd h.std (by simp [Std, hs])
   all_goals (eof_state h hs he; all_goals eof_leaf)
 
-/-- **end of file**: the model's `eof_step` loop, started in a configuration related to the
-specification's, ends with the output with which the specification, reading the empty input, stops.
-(`hmc`: see `eof_markupDeclarationOpen`.) -/
-theorem eof_sim (o : Opts) (ho : o.exactErrors = false) (tree : Tree) (m : Mach) (t : Tok)
-    (h : RegCore m t) (hmc : m.state = .markupDeclarationOpen → m.comment = [])
-    (mf : Mach) (he : eofLoop o 8 m = .ok mf) : StopsWith tree t (flat mf.out) := by
+/-- all states: any fuel `≥ 4` -/
+theorem eof_ok (o : Opts) (ho : o.exactErrors = false) (tree : Tree) (m : Mach) (t : Tok)
+    (h : RegCore m t) : EofOk o tree m t := by
   cases hs : m.state with
-  | data => exact eof_data o ho tree m t h hs 4 mf he
-  | plaintext => exact eof_plaintext o ho tree m t h hs 4 mf he
-  | tagOpen => exact eof_tagOpen o ho tree m t h hs 4 mf he
-  | endTagOpen => exact eof_endTagOpen o ho tree m t h hs 4 mf he
-  | tagName => exact eof_tagName o ho tree m t h hs 4 mf he
-  | scriptDataEscapeStartDash => exact eof_scriptDataEscapeStartDash o ho tree m t h hs 4 mf he
-  | scriptDataDoubleEscapeEnd => exact eof_scriptDataDoubleEscapeEnd o ho tree m t h hs 4 mf he
-  | beforeAttributeName => exact eof_beforeAttributeName o ho tree m t h hs 4 mf he
-  | attributeName => exact eof_attributeName o ho tree m t h hs 4 mf he
-  | afterAttributeName => exact eof_afterAttributeName o ho tree m t h hs 4 mf he
-  | beforeAttributeValue => exact eof_beforeAttributeValue o ho tree m t h hs 4 mf he
-  | afterAttributeValueQuoted => exact eof_afterAttributeValueQuoted o ho tree m t h hs 4 mf he
-  | selfClosingStartTag => exact eof_selfClosingStartTag o ho tree m t h hs 4 mf he
-  | bogusComment => exact eof_bogusComment o ho tree m t h hs 4 mf he
-  | commentStart => exact eof_commentStart o ho tree m t h hs 4 mf he
-  | commentStartDash => exact eof_commentStartDash o ho tree m t h hs 4 mf he
-  | comment => exact eof_comment o ho tree m t h hs 4 mf he
-  | commentLessThanSign => exact eof_commentLessThanSign o ho tree m t h hs 4 mf he
-  | commentLessThanSignBang => exact eof_commentLessThanSignBang o ho tree m t h hs 4 mf he
-  | commentLessThanSignBangDash => exact eof_commentLessThanSignBangDash o ho tree m t h hs 4 mf he
-  | commentLessThanSignBangDashDash => exact eof_commentLessThanSignBangDashDash o ho tree m t h hs 4 mf he
-  | commentEndDash => exact eof_commentEndDash o ho tree m t h hs 4 mf he
-  | commentEnd => exact eof_commentEnd o ho tree m t h hs 4 mf he
-  | commentEndBang => exact eof_commentEndBang o ho tree m t h hs 4 mf he
-  | doctype => exact eof_doctype o ho tree m t h hs 4 mf he
-  | beforeDoctypeName => exact eof_beforeDoctypeName o ho tree m t h hs 4 mf he
-  | doctypeName => exact eof_doctypeName o ho tree m t h hs 4 mf he
-  | afterDoctypeName => exact eof_afterDoctypeName o ho tree m t h hs 4 mf he
-  | betweenDoctypePublicAndSystemIdentifiers => exact eof_betweenDoctypePublicAndSystemIdentifiers o ho tree m t h hs 4 mf he
-  | bogusDoctype => exact eof_bogusDoctype o ho tree m t h hs 4 mf he
-  | cdataSection => exact eof_cdataSection o ho tree m t h hs 4 mf he
-  | cdataSectionBracket => exact eof_cdataSectionBracket o ho tree m t h hs 4 mf he
-  | cdataSectionEnd => exact eof_cdataSectionEnd o ho tree m t h hs 4 mf he
-  | markupDeclarationOpen => exact eof_markupDeclarationOpen o ho tree m t h hs (hmc hs) 4 mf he
-  | scriptDataEscapeStart kd => exact eof_scriptDataEscapeStart o ho tree m t h kd hs 4 mf he
-  | scriptDataEscapedDash kd => exact eof_scriptDataEscapedDash o ho tree m t h kd hs 4 mf he
-  | scriptDataEscapedDashDash kd => exact eof_scriptDataEscapedDashDash o ho tree m t h kd hs 4 mf he
-  | attributeValue kd => exact eof_attributeValue o ho tree m t h kd hs 4 mf he
-  | afterDoctypeKeyword kd => exact eof_afterDoctypeKeyword o ho tree m t h kd hs 4 mf he
-  | beforeDoctypeIdentifier kd => exact eof_beforeDoctypeIdentifier o ho tree m t h kd hs 4 mf he
-  | doctypeIdentifierDoubleQuoted kd => exact eof_doctypeIdentifierDoubleQuoted o ho tree m t h kd hs 4 mf he
-  | doctypeIdentifierSingleQuoted kd => exact eof_doctypeIdentifierSingleQuoted o ho tree m t h kd hs 4 mf he
-  | afterDoctypeIdentifier kd => exact eof_afterDoctypeIdentifier o ho tree m t h kd hs 4 mf he
-  | rawData kd => exact eof_rawData o ho tree m t h kd hs 4 mf he
-  | rawLessThanSign kd => exact eof_rawLessThanSign o ho tree m t h kd hs 4 mf he
-  | rawEndTagOpen kd => exact eof_rawEndTagOpen o ho tree m t h kd hs 4 mf he
-  | rawEndTagName kd => exact eof_rawEndTagName o ho tree m t h kd hs 4 mf he
+  | data => exact eof_data o ho tree m t h hs
+  | plaintext => exact eof_plaintext o ho tree m t h hs
+  | tagOpen => exact eof_tagOpen o ho tree m t h hs
+  | endTagOpen => exact eof_endTagOpen o ho tree m t h hs
+  | tagName => exact eof_tagName o ho tree m t h hs
+  | scriptDataEscapeStartDash => exact eof_scriptDataEscapeStartDash o ho tree m t h hs
+  | scriptDataDoubleEscapeEnd => exact eof_scriptDataDoubleEscapeEnd o ho tree m t h hs
+  | beforeAttributeName => exact eof_beforeAttributeName o ho tree m t h hs
+  | attributeName => exact eof_attributeName o ho tree m t h hs
+  | afterAttributeName => exact eof_afterAttributeName o ho tree m t h hs
+  | beforeAttributeValue => exact eof_beforeAttributeValue o ho tree m t h hs
+  | afterAttributeValueQuoted => exact eof_afterAttributeValueQuoted o ho tree m t h hs
+  | selfClosingStartTag => exact eof_selfClosingStartTag o ho tree m t h hs
+  | bogusComment => exact eof_bogusComment o ho tree m t h hs
+  | commentStart => exact eof_commentStart o ho tree m t h hs
+  | commentStartDash => exact eof_commentStartDash o ho tree m t h hs
+  | comment => exact eof_comment o ho tree m t h hs
+  | commentLessThanSign => exact eof_commentLessThanSign o ho tree m t h hs
+  | commentLessThanSignBang => exact eof_commentLessThanSignBang o ho tree m t h hs
+  | commentLessThanSignBangDash => exact eof_commentLessThanSignBangDash o ho tree m t h hs
+  | commentLessThanSignBangDashDash => exact eof_commentLessThanSignBangDashDash o ho tree m t h hs
+  | commentEndDash => exact eof_commentEndDash o ho tree m t h hs
+  | commentEnd => exact eof_commentEnd o ho tree m t h hs
+  | commentEndBang => exact eof_commentEndBang o ho tree m t h hs
+  | doctype => exact eof_doctype o ho tree m t h hs
+  | beforeDoctypeName => exact eof_beforeDoctypeName o ho tree m t h hs
+  | doctypeName => exact eof_doctypeName o ho tree m t h hs
+  | afterDoctypeName => exact eof_afterDoctypeName o ho tree m t h hs
+  | betweenDoctypePublicAndSystemIdentifiers => exact eof_betweenDoctypePublicAndSystemIdentifiers o ho tree m t h hs
+  | bogusDoctype => exact eof_bogusDoctype o ho tree m t h hs
+  | cdataSection => exact eof_cdataSection o ho tree m t h hs
+  | cdataSectionBracket => exact eof_cdataSectionBracket o ho tree m t h hs
+  | cdataSectionEnd => exact eof_cdataSectionEnd o ho tree m t h hs
+  | markupDeclarationOpen => exact eof_markupDeclarationOpen o ho tree m t h hs
+  | scriptDataEscapeStart kd => exact eof_scriptDataEscapeStart o ho tree m t h kd hs
+  | scriptDataEscapedDash kd => exact eof_scriptDataEscapedDash o ho tree m t h kd hs
+  | scriptDataEscapedDashDash kd => exact eof_scriptDataEscapedDashDash o ho tree m t h kd hs
+  | attributeValue kd => exact eof_attributeValue o ho tree m t h kd hs
+  | afterDoctypeKeyword kd => exact eof_afterDoctypeKeyword o ho tree m t h kd hs
+  | beforeDoctypeIdentifier kd => exact eof_beforeDoctypeIdentifier o ho tree m t h kd hs
+  | doctypeIdentifierDoubleQuoted kd => exact eof_doctypeIdentifierDoubleQuoted o ho tree m t h kd hs
+  | doctypeIdentifierSingleQuoted kd => exact eof_doctypeIdentifierSingleQuoted o ho tree m t h kd hs
+  | afterDoctypeIdentifier kd => exact eof_afterDoctypeIdentifier o ho tree m t h kd hs
+  | rawData kd => exact eof_rawData o ho tree m t h kd hs
+  | rawLessThanSign kd => exact eof_rawLessThanSign o ho tree m t h kd hs
+  | rawEndTagOpen kd => exact eof_rawEndTagOpen o ho tree m t h kd hs
+  | rawEndTagName kd => exact eof_rawEndTagName o ho tree m t h kd hs
+
+/-- **end of file**: the model's `eof_step` loop, started in a configuration related to the
+specification's, ends with the output with which the specification, reading the empty input, stops -/
+theorem eof_sim (o : Opts) (ho : o.exactErrors = false) (tree : Tree) (m : Mach) (t : Tok)
+    (h : RegCore m t) (mf : Mach) (he : eofLoop o 8 m = .ok mf) : StopsWith tree t (flat mf.out) :=
+  eof_ok o ho tree m t h 4 mf he
+
+/-- the loop never fails and never runs out of its fuel -/
+theorem eofLoop_ok (o : Opts) (m : Mach) : ∃ mf, eofLoop o 8 m = .ok mf := by
+  cases hs : m.state with
+  | rawData kd => cases kd with
+    | scriptDataEscaped e => cases e <;> simp [eofLoop, transEof, hs, to, reconsumeTo]
+    | _ => simp [eofLoop, transEof, hs, to, reconsumeTo]
+  | rawLessThanSign kd => cases kd with
+    | scriptDataEscaped e => cases e <;> simp [eofLoop, transEof, hs, to, reconsumeTo]
+    | _ => simp [eofLoop, transEof, hs, to, reconsumeTo]
+  | rawEndTagOpen kd => cases kd with
+    | scriptDataEscaped e => cases e <;> simp [eofLoop, transEof, hs, to, reconsumeTo]
+    | _ => simp [eofLoop, transEof, hs, to, reconsumeTo]
+  | rawEndTagName kd => cases kd with
+    | scriptDataEscaped e => cases e <;> simp [eofLoop, transEof, hs, to, reconsumeTo]
+    | _ => simp [eofLoop, transEof, hs, to, reconsumeTo]
+  | scriptDataEscapeStart kd => cases kd <;> simp [eofLoop, transEof, hs, to, reconsumeTo]
+  | _ => simp [eofLoop, transEof, hs, to, reconsumeTo]
 
 end H5V.Lemmas.HtmlTokSpec
